@@ -67,7 +67,14 @@ pub fn draw(w: &mut World) -> Option<Ev> {
             let keep = w.rng.below(1000);
             Some(sp(n, "crash", vec![keep]))
         }
-        "gc" => Some(sp(n, "rebuild", vec![w.rng.below(2)])),
+        "gc" => {
+            if w.cfg.sticky_undo && w.rng.chance(50) {
+                // undo manager on node 0 (shared with the sticky profile's plumbing)
+                Some(sp(0, if w.rng.chance(65) { "sundo" } else { "sredo" }, vec![]))
+            } else {
+                Some(sp(n, "rebuild", vec![w.rng.below(2)]))
+            }
+        }
         "relay" => {
             if w.rng.chance(50) {
                 // merge 2..4 in-flight messages that go to the same node
@@ -120,6 +127,8 @@ pub fn exec(w: &mut World, n: usize, k: &str, a: &[u64], s: &[String]) -> VResul
         }
         "crash" => crash(w, n, a.first().copied().unwrap_or(0)),
         "rebuild" => rebuild(w, n, a.first().copied().unwrap_or(0) == 1),
+        "sundo" => crate::stickymon::sticky_undo(w, true),
+        "sredo" => crate::stickymon::sticky_undo(w, false),
         "merge" => relay_merge(w, n, a),
         "algebra" => relay_algebra(w, n, a),
         _ => crate::seqmon::exec(w, n, k, a, s),
